@@ -520,7 +520,10 @@ func (e *Exec) convert(v Value, from, to types.Type) Value {
 
 func (e *Exec) floatConv(x *Term, from, to types.Type) Value {
 	if !x.IsConst() {
-		panic(unsupported{"symbolic float conversion"})
+		// symbolic floats are bit patterns; conversions are uninterpreted
+		// (injectivity of widening is not modelled)
+		name := fmt.Sprintf("fconv_%s_%s", from.Underlying().String(), to.Underlying().String())
+		return e.ctx.UF(name, typeWidth(to), x)
 	}
 	switch {
 	case isFloat(from) && isFloat(to):
